@@ -141,7 +141,7 @@ Proof.
             else Some ([], match mk with Some k => k ++ maskl k 0 pl | None => pl end ++ rest)) with
      | None => Need
      | Some (k, r2) =>
-       if blen r2 <? L then Need else
+       if short_of r2 L then Need else
        match take (N.to_nat L) r2 with
        | None => Need
        | Some (pl0, rest0) =>
@@ -153,9 +153,9 @@ Proof.
      end) = Parsed {| fin := fn; rsv := rs; opcode := op; mkey := mk; payload := pl |} minimal rest).
   { intros minimal. rewrite Hbad. destruct mk as [k|].
     - rewrite <- app_assoc. rewrite (take_app 4 k) by exact Hk.
-      rewrite Hfit2. rewrite take_app by (rewrite maskl_length; exact HL).
+      rewrite short_of_spec, Hfit2. rewrite take_app by (rewrite maskl_length; exact HL).
       rewrite mask_inv. reflexivity.
-    - rewrite Hfit1. rewrite take_app by exact HL. reflexivity. }
+    - rewrite short_of_spec, Hfit1. rewrite take_app by exact HL. reflexivity. }
   unfold len_enc.
   destruct (L <? 126) eqn:E1; [|destruct (L <? 65536) eqn:E2].
   - (* 7-bit *)
